@@ -185,6 +185,67 @@ func vpH_C03_T_unreachable_anyerr() {
 
 var vpC03SymErr bool
 
+// vpH_C03_T_unreachable_validating: every refresh fails at once and every read hangs, from the start; the
+// periodic validation runs at the heartbeat interval (its reads hang until their own time-out). The leader steps
+// down at the completion of its third consecutive failed refresh — a validation read in flight does not
+// postpone that.
+func vpH_C03_T_unreachable_validating() {
+	tm := vpTimings[0]
+	s := vpLeadingInstance(tm, 0, func(cfg *ElectionConfig) { cfg.ValidationInterval = tm.H })
+	s.st.ttl = 0
+	s.kv.faults = []int{vpFaultErr}
+	s.kv.faultLeft = 100
+	s.kv.faultOps = "update"
+	s.kv.faultForce = true
+	s.kv.hangGets = true
+	select {
+	case <-s.demoted:
+	case <-time.After(8*tm.H + tm.H/2):
+	}
+	vpCover("C03.unreachable-validating")
+	third := int64(-1)
+	n := 0
+	for _, is := range s.st.issued {
+		if is.by == "a" && is.op == "update" {
+			n++
+			if n == 3 {
+				third = is.at
+			}
+		}
+	}
+	vpAssert("C03.demote-after-3", s.cb.demotes >= 1 && !s.e.IsLeader())
+	vpAssert("C03.demote-after-3:attempts", n <= 3)
+	vpAssert("C03.demote-after-3:at-completion", vpImplies(s.cb.demotes >= 1 && third >= 0, s.cb.demoteAt <= third+int64(100*time.Millisecond)))
+}
+
+// vpH_C03_T_unreachable_checker: every refresh fails at once from the start, and a health checker is configured
+// whose verdicts flap (explorer's choice per tick, never two unhealthy in a row, threshold default 3): unhealthy
+// ticks skip the refresh, but the leader still steps down at its third consecutive failed attempt — a health
+// verdict does not restart that count.
+func vpH_C03_T_unreachable_checker() {
+	tm := vpTimings[0]
+	hc := &vpHealth{noTwoUnhealthy: true}
+	s := vpLeadingInstance(tm, 0, func(cfg *ElectionConfig) { cfg.HealthChecker = hc })
+	s.st.ttl = 0
+	s.kv.faults = []int{vpFaultErr}
+	s.kv.faultLeft = 100
+	s.kv.faultOps = "update"
+	s.kv.faultForce = true
+	select {
+	case <-s.demoted:
+	case <-time.After(8*tm.H + tm.H/2):
+	}
+	vpCover("C03.unreachable-checker")
+	failed := 0
+	for _, is := range s.st.issued {
+		if is.by == "a" && is.op == "update" {
+			failed++
+		}
+	}
+	vpAssert("C03.demote-after-3", s.cb.demotes >= 1 && !s.e.IsLeader())
+	vpAssert("C03.demote-after-3:attempts", failed <= 3)
+}
+
 // extra widens the window in which the cut may begin (so that slow successful refreshes precede it)
 func vpC03UnreachableW(tm vpTiming, extra time.Duration) {
 	mcf := []int{0, 6}[vpChoose("MaxConsecutiveFailures", 2)] // the health threshold must not change the heartbeat rule
